@@ -420,6 +420,9 @@ func driveInflateOpen(r *rand.Rand, w *writer, n int) {
 					cur = Pt{cur[0] + int64(r.Intn(81)-40), cur[1] + int64(r.Intn(81)-40)}
 				}
 			}
+			if len(q) >= 3 && r.Intn(5) == 0 { // a loop drawn as a polyline: the first point repeated at the end
+				q = append(q, q[0])
+			}
 			paths = append(paths, q)
 		}
 		e := &InflateEv{Ev: "Inflate", Chk: chkFor("C10"), Api: []string{"InflatePaths64", "ClipperOffset"}[r.Intn(2)],
